@@ -39,6 +39,40 @@ func (d *extractDeferFetches) Process(deferPlan *plan.DeferResponsePlan) {
 		}
 		deferPlan.Response.Defers = append(deferPlan.Response.Defers, deferResponse)
 	}
+
+	pruneDescriptorsWithoutFetches(deferPlan.Response, fetchGroups)
+}
+
+// pruneDescriptorsWithoutFetches removes the descriptors of defers that have no fetch group:
+// such a defer has nothing to deliver (its fields were merged into non-deferred copies, or sit in
+// a type branch the planner dropped); it would be announced as pending and never be completed.
+// Children of a removed descriptor are re-parented to the nearest kept ancestor.
+func pruneDescriptorsWithoutFetches(response *resolve.GraphQLDeferResponse, fetchGroups map[int][]*resolve.FetchTreeNode) {
+	if len(response.DeferDescriptors) == 0 {
+		return
+	}
+	parentOf := make(map[int]int, len(response.DeferDescriptors))
+	for id, d := range response.DeferDescriptors {
+		parentOf[id] = d.ParentID
+	}
+	for id := range parentOf {
+		if _, ok := fetchGroups[id]; !ok {
+			delete(response.DeferDescriptors, id)
+		}
+	}
+	for id, d := range response.DeferDescriptors {
+		parent := d.ParentID
+		for steps := 0; parent != 0 && steps <= len(parentOf); steps++ {
+			if _, kept := response.DeferDescriptors[parent]; kept {
+				break
+			}
+			parent = parentOf[parent]
+		}
+		if parent != d.ParentID {
+			d.ParentID = parent
+			response.DeferDescriptors[id] = d
+		}
+	}
 }
 
 func (d *extractDeferFetches) fetchGroups(deferPlan *plan.DeferResponsePlan) (root []*resolve.FetchTreeNode, fetchGroups map[int][]*resolve.FetchTreeNode) {
